@@ -209,7 +209,10 @@ fn run_case(rep: &mut Report, case: u64) {
     let kind_ix = (case % nk) as usize;
     let mut op = ((case / nk) % nops) as usize;
     if let Some(only) = cfg.extra.get("only_op") {
-        op = OPS.iter().position(|o| o == only).expect("only_op names an operation");
+        // one operation, or several separated by '+' (the grid column is folded onto them)
+        let names: Vec<&str> = only.split('+').collect();
+        let pick = names[op % names.len()];
+        op = OPS.iter().position(|o| *o == pick).expect("only_op names an operation");
     }
     let kslot = (case / (nk * nops)) % 8; // 0..5 => k = 1..6, 6 => middle, 7 => last
     let mut pool = every_driver();
